@@ -373,7 +373,130 @@ func blockedSites() []string {
 	return out
 }
 
+// lonelyRound choreographs the wake-up corner that random rounds rarely reach: a blocked producer whose context ends at
+// the very moment space is freed, and LATER exactly one producer blocked alone on a full queue that then drains -- it must
+// be released (a wake-up counter that drifted would skip the only signal).
+func lonelyRound(rng *rand.Rand, round int, emit func(Ev)) bool {
+	cfg := Cfg{Sizer: "requests", Cap: 1, Block: true, WFR: false, Persistent: rng.Intn(4) == 0, Consumers: 1}
+	var mu sync.Mutex
+	log := func(e Ev) { mu.Lock(); emit(e); mu.Unlock() }
+	gates := map[string]chan struct{}{"A": make(chan struct{}, 1), "B": make(chan struct{}, 1), "C": make(chan struct{}, 1), "D": make(chan struct{}, 1)}
+	arrived := map[string]chan struct{}{"A": make(chan struct{}, 1), "B": make(chan struct{}, 1), "C": make(chan struct{}, 1), "D": make(chan struct{}, 1)}
+	w := 0
+	next := func(_ context.Context, r request.Request) error {
+		n := r.(*vreq).Name
+		mu.Lock()
+		w++
+		k := w
+		emit(Ev{Ev: "push_start", Req: n, W: k})
+		mu.Unlock()
+		arrived[n] <- struct{}{}
+		<-gates[n]
+		log(Ev{Ev: "push_end", Req: n, Out: "ok", W: k})
+		return nil
+	}
+	e, err := newEnv(cfg, next)
+	if err != nil {
+		return true
+	}
+	c := cfg
+	log(Ev{Ev: "reset", Round: round, Cfg: &c, Reqs: []string{"A", "B", "C", "D"}, Sizes: []int64{1, 1, 1, 1}})
+	if err := e.qb.Start(context.Background(), e.host); err != nil {
+		return true
+	}
+	offer := func(p int, name string, ctx context.Context, cancel bool) string {
+		log(Ev{Ev: "offer_start", P: p, Req: name, Size: 1, Cancel: cancel})
+		res := classify(e.qb.Send(ctx, mkReq(name, 1, cfg.Sizer)))
+		log(Ev{Ev: "offer_end", P: p, Req: name, Res: res, Size: 1})
+		return res
+	}
+	waitCh := func(ch chan struct{}, d time.Duration) bool {
+		select {
+		case <-ch:
+			return true
+		case <-time.After(d):
+			return false
+		}
+	}
+	hang := func() bool { log(Ev{Ev: "hang", Blocked: blockedSites()}); return false }
+	offer(1, "A", context.Background(), false)
+	if !waitCh(arrived["A"], 10*time.Second) {
+		return hang()
+	}
+	// P1: blocked, its context ends at (about) the moment A finishes
+	d := time.Duration(80+rng.Intn(250)) * time.Microsecond
+	ctx1, cancel1 := context.WithCancel(context.Background())
+	p1 := make(chan string, 1)
+	go func() { p1 <- offer(2, "B", ctx1, true) }()
+	t0 := time.Now()
+	for time.Since(t0) < d { // spin: precise timing
+	}
+	if rng.Intn(2) == 0 {
+		cancel1()
+		gates["A"] <- struct{}{}
+	} else {
+		gates["A"] <- struct{}{}
+		cancel1()
+	}
+	var r1 string
+	select {
+	case r1 = <-p1:
+	case <-time.After(20 * time.Second):
+		return hang()
+	}
+	cancel1()
+	if r1 == "ok" { // B got in after all: let it through
+		if !waitCh(arrived["B"], 10*time.Second) {
+			return hang()
+		}
+		gates["B"] <- struct{}{}
+	}
+	// the queue drains; then it is filled again and exactly one producer blocks
+	pc := make(chan string, 1)
+	go func() { pc <- offer(1, "C", context.Background(), false) }()
+	select {
+	case <-pc:
+	case <-time.After(20 * time.Second):
+		return hang()
+	}
+	if !waitCh(arrived["C"], 10*time.Second) {
+		return hang()
+	}
+	p2 := make(chan string, 1)
+	go func() { p2 <- offer(3, "D", context.Background(), false) }()
+	time.Sleep(time.Duration(100+rng.Intn(300)) * time.Microsecond) // let it block (if it is not yet blocked the run is still valid)
+	gates["C"] <- struct{}{}
+	select {
+	case <-p2:
+	case <-time.After(20 * time.Second):
+		// re-confirm once more before calling it a hang
+		select {
+		case <-p2:
+		case <-time.After(10 * time.Second):
+			return hang()
+		}
+	}
+	if !waitCh(arrived["D"], 10*time.Second) {
+		return hang()
+	}
+	gates["D"] <- struct{}{}
+	log(Ev{Ev: "shutdown_start"})
+	done := make(chan struct{})
+	go func() { _ = e.qb.Shutdown(context.Background()); close(done) }()
+	select {
+	case <-done:
+	case <-time.After(20 * time.Second):
+		return hang()
+	}
+	log(Ev{Ev: "shutdown_end"})
+	_ = e.tel.Shutdown(context.Background())
+	return true
+}
+
 func stressRound(rng *rand.Rand, round int, emit func(Ev)) bool {
+	if round%8 == 2 || round%8 == 6 {
+		return lonelyRound(rng, round, emit)
+	}
 	cfg := Cfg{Sizer: []string{"requests", "items", "bytes"}[rng.Intn(3)], Cap: int64(1 + rng.Intn(4)), Block: rng.Intn(4) != 0,
 		WFR: rng.Intn(3) == 0, Persistent: false, Consumers: 1 + rng.Intn(2)}
 	if rng.Intn(5) == 0 {
